@@ -30,6 +30,11 @@ func NewWith(convert StructOptions, value interface{}) Value {
 
 	// see if value implements MarshalValue
 	if mar, ok := value.(Marshaler); ok {
+		// a nil pointer whose element type has a value-receiver MarshalValue
+		// satisfies the interface but can not be called.
+		if rv := reflect.ValueOf(value); rv.Kind() == reflect.Ptr && rv.IsNil() {
+			return Null{}
+		}
 		return mar.MarshalValue()
 	}
 
